@@ -244,7 +244,10 @@ def run_links(ctx, n, reported):
                     reported.add("link:versym")
                     ctx.violation("link:versym", f"symbol {sn}: GNU ld gives version/visibility {rp['gnu']!r}, wild {rp['wild']!r}", rp)
         gd, wd = verdefs(res["gnu"][2]), verdefs(res["wild"][2])
-        if gd != wd and "link:verdef" not in reported:
+        # GNU ld sets VER_FLG_WEAK on a version node that ends up without symbols; the property asks for consistent tables
+        # (indices, names, parents, BASE), not for that flag: it is not compared
+        strip = lambda vd: [[x[0], "BASE" if x[1] == "BASE" else "", x[2], x[3]] for x in vd]
+        if strip(gd) != strip(wd) and "link:verdef" not in reported:
             ctx.cov["impl_oracle_failures"] += 1
             reported.add("link:verdef")
             rp = dict(replay)
